@@ -1033,7 +1033,10 @@ class LogixDriver(CIPDriver):
                 self._cfg["use_instance_ids"],
             )
 
-            return_size = _tag_return_size(parsed_tag) + len(request.message)
+            request.build_message()
+            return_size = (
+                _tag_return_size(parsed_tag) + len(request.message) + 2
+            )  # response overhead, same estimate as for multi-request reads
             if return_size > self.connection_size:
                 request = ReadTagFragmentedRequestPacket.from_request(self._sequence, request)
 
